@@ -1,6 +1,7 @@
 import BeyondVerif.Lemmas.Registry
 import BeyondVerif.Generated.RegSites
 import BeyondVerif.Generated.Graphs
+import BeyondVerif.Model.RegistrySpec
 
 /-!
 # C20 — the registry layer: a connected pair never raises `Unknown transformation`
@@ -288,6 +289,13 @@ theorem builtin_links_have_methods :
     (BeyondVerif.Generated.orientHist.all (fun e =>
       BeyondVerif.Generated.orientMethods.contains (e.1, e.2) ||
       BeyondVerif.Generated.orientMethods.contains (e.2, e.1))) = true := by decide
+
+/-- nodes sharing names: every insertion order and orientation of every labelled forest on ≤ 3 nodes under EVERY
+assignment of names (27 on 3 nodes), every prefix: each name carried by a connected node is routed along a simple chain
+of existing links to a nearest node of that name, every other name is `Unknown` (kernel `decide`; larger cases are
+enumerated / sampled on the real code and compared with the model) -/
+theorem small_named_forests_exact : (allNamedForestsOK 2 && allNamedForestsOK 3) = true := by
+  decide +kernel
 
 /-! ## non-vacuity: a station below an orientation of a SUBCLASS, then a same-named second station -/
 
